@@ -44,7 +44,7 @@ def r1_stop_checks(chk: Check) -> None:
     w = P.func(f"{UNIT_EX}:cached_test_func.wrapped")
     _stop_guarded(chk, "C12.R1", w, [c for c in body_calls(w) if isinstance(c.func, ast.Name) and c.func.id == "f"], "f(ctx=..., case=...)")
     tf = P.func(f"{UNIT_EX}:test_func")
-    chk.decide("cached_test_func" in tf.decorator_names(), "C12.R1", tf, "@cached_test_func on test_func", "the engine's test body is no longer wrapped by the stop/unique-input guard", tf.loc())
+    chk.expect("cached_test_func" in tf.decorator_names(), "C12.R1", tf, "@cached_test_func on test_func", "the engine's test body is no longer wrapped by the stop/unique-input guard", tf.loc())
     sends = [c for c in body_calls(tf) if dotted(c.func) == "case.call"]
     chk.decide(bool(sends), "C12.R1", tf, "test_func sends through case.call", "send site moved: the guarded function no longer contains the request", tf.loc())
     loop = P.maybe_func(f"{ST_EX}:_execute_state_machine_loop") or P.func(f"{ST_EX}:execute_state_machine_loop")
@@ -62,7 +62,7 @@ def r1_stop_checks(chk: Check) -> None:
     if r and isinstance(r[0], ast.BoolOp) and isinstance(r[0].op, ast.And):
         chk.violation("C12.R1", ctl, "is_stopped = interrupted or failure limit", "execution only stops when BOTH an interrupt and the failure limit occurred", ctl.loc())
     else:
-        chk.decide("is_interrupted" in text and "has_reached_the_failure_limit" in text, "C12.R1", ctl, "is_stopped = interrupted or failure limit", f"is_stopped ignores a stop source: `{text}`", ctl.loc())
+        chk.expect("is_interrupted" in text and "has_reached_the_failure_limit" in text, "C12.R1", ctl, "is_stopped = interrupted or failure limit", f"is_stopped ignores a stop source: `{text}`", ctl.loc())
     hts = P.func("engine/context.py:EngineContext.has_to_stop")
     r = simple_return_expr(hts)
     chk.decide(bool(r) and unparse(r[0]) == "self.control.is_stopped", "C12.R1", hts, "has_to_stop -> control.is_stopped", f"has_to_stop returns `{unparse(r[0]) if r else '?'}`", hts.loc())
@@ -146,7 +146,7 @@ def r2_failure_limit(chk: Check) -> None:
     se = P.func("engine/phases/__init__.py:Phase.should_execute")
     r = simple_return_expr(se)
     text = unparse(r[0], 200) if r else ""
-    chk.decide("self.is_enabled" in text and "not ctx.has_to_stop" in text and isinstance(r[0], ast.BoolOp) and isinstance(r[0].op, ast.And), "C12.R2", se,
+    chk.expect("self.is_enabled" in text and "not ctx.has_to_stop" in text and isinstance(r[0], ast.BoolOp) and isinstance(r[0].op, ast.And), "C12.R2", se,
                "should_execute = enabled and not has_to_stop", f"phases run although a stop / the failure limit was reached: `{text}`", se.loc())
     skip_arm = [c for c in body_calls(ex) if last_attr(c) == "PhaseFinished" and (dotted(kwarg(c, "status")) or "").endswith("SKIP")]
     chk.decide(bool(skip_arm), "C12.R2", ex, "non-executed phase => PhaseFinished(SKIP)", "a phase that is not executed is not reported as skipped", ex.loc())
@@ -206,7 +206,7 @@ def r3_plumbing(chk: Check) -> None:
         comp = [n for n in ast.walk(merges[0]) if isinstance(n, ast.DictComp)]
         if comp:
             text = unparse(comp[0], 400)
-            chk.decide("!=" in text and "default" in text, "C12.R3", ct, "only non-default user settings override", "merge filter not recognised", ct.loc(merges[0]))
+            chk.expect("!=" in text and "default" in text, "C12.R3", ct, "only non-default user settings override", "merge filter not recognised", ct.loc(merges[0]))
     # stateful
     loop = P.maybe_func(f"{ST_EX}:_execute_state_machine_loop") or P.func(f"{ST_EX}:execute_state_machine_loop")
     runs = [c for c in body_calls(loop) if last_attr(c) == "run" and "StateMachine" in unparse(c.func)]
